@@ -11,11 +11,14 @@ use std::rc::Rc;
 pub type Args = Vec<Value>;
 pub type Ret = LResult<Vec<Value>>;
 
-static NIL: Value = Value::Nil;
+struct SyncNil(Value);
+// SAFETY: the wrapped value is always `Value::Nil`, which holds no `Rc`.
+unsafe impl Sync for SyncNil {}
+static NIL: SyncNil = SyncNil(Value::Nil);
 
 #[inline]
 pub fn arg(a: &Args, i: usize) -> &Value {
-    a.get(i).unwrap_or(&NIL)
+    a.get(i).unwrap_or(&NIL.0)
 }
 
 pub fn got(a: &Args, i: usize) -> &'static str {
@@ -86,7 +89,11 @@ impl Interp {
         }
     }
 
+    /// Get or create the global library table `name`.
     pub fn new_lib(&mut self, name: &str) -> TableRef {
+        if let Value::Table(t) = self.globals.borrow().get_str(name.as_bytes()) {
+            return t;
+        }
         let t = self.new_table(Table::new());
         let g = self.globals.clone();
         let _ = g.borrow_mut().set(Value::str(name.as_bytes()), Value::Table(t.clone()));
